@@ -20,10 +20,11 @@ Open Scope Z_scope.
 Definition is_topb (s : signal) : bool := match s_parent s with None => true | Some _ => false end.
 Definition is_muxb (s : signal) : bool := match s_kind s with KMux => true | _ => false end.
 
-(* the groups of a multiplexed child: none listed = fixed (member of every group; then the multiplexer has at
-   least two groups), or a strictly ascending list of group ids that does not cover every group *)
+(* the groups of a multiplexed child: none listed = fixed (member of every group), or a strictly ascending list of
+   group ids below the group count (it may name every group: the importer then brings the signal back as fixed
+   when the list covers the imported group count 2^width - the membership is the same set) *)
 Definition groups_ok (gc : Z) (gs : list Z) : Prop :=
-  (gs = [] /\ 2 <= gc) \/ (gs <> [] /\ ascending (-1) gs /\ (forall g, In g gs -> g < gc) /\ Z.of_nat (length gs) < gc).
+  (gs = [] /\ 1 <= gc) \/ (gs <> [] /\ ascending (-1) gs /\ (forall g, In g gs -> g < gc)).
 Definition mem_of (gc : Z) (c : signal) : list Z := match s_groups c with [] => zrange 0 (Z.to_nat gc) | g => g end.
 
 (* a multiplexed child: a standard or enum signal *)
@@ -123,6 +124,24 @@ Proof.
       apply (IH (from + 1) (g :: r)); [cbn; split; [lia|assumption]|intros x Hx; specialize (Hb x Hx); lia].
 Qed.
 
+Lemma ascending_count : forall l y m, ascending y l -> (forall g, In g l -> g < m) -> l = [] \/ y + Z.of_nat (length l) < m.
+Proof.
+  induction l as [|x r IH]; intros y m Ha Hb; [left; reflexivity|right]. cbn [ascending] in Ha. destruct Ha as [H1 H2].
+  pose proof (Hb x (or_introl eq_refl)) as Hx.
+  destruct (IH x m H2 (fun g Hg => Hb g (or_intror Hg))) as [->|Hr]; cbn [length]; lia.
+Qed.
+Lemma ascending_full : forall l a, ascending (a - 1) l -> (forall g, In g l -> g < a + Z.of_nat (length l)) -> l = zrange a (length l).
+Proof.
+  induction l as [|x r IH]; intros a Ha Hb; [reflexivity|]. cbn [ascending] in Ha. destruct Ha as [H1 H2].
+  assert (Hxa : x = a).
+  { destruct (ascending_count r x (a + Z.of_nat (length (x :: r))) H2 (fun g Hg => Hb g (or_intror Hg))) as [->|Hc]; cbn [length] in *.
+    - pose proof (Hb x (or_introl eq_refl)). cbn [length] in *. lia.
+    - lia. }
+  subst x. cbn [zrange length]. f_equal. apply IH.
+  - replace (a + 1 - 1) with a by lia. exact H2.
+  - intros g Hg. specialize (Hb g (or_intror Hg)). cbn [length] in Hb. lia.
+Qed.
+
 Section GroupFacts.
   Variables (mx c : signal).
   Hypothesis Hok : gok mx c.
@@ -137,7 +156,7 @@ Section GroupFacts.
   Qed.
   Lemma mem_of_ascending : ascending (-1) (mem_of gc c) /\ (forall g, In g (mem_of gc c) -> g < gc).
   Proof.
-    destruct Hok as [_ [[Hg H2]|[Hne [Ha [Hb _]]]]]; unfold mem_of.
+    destruct Hok as [_ [[Hg H2]|[Hne [Ha Hb]]]]; unfold mem_of.
     - rewrite Hg. split.
       + clear. generalize (Z.to_nat gc). intros n. assert (G : forall m from prev, prev < from -> ascending prev (zrange from m)).
         { induction m as [|m IH]; intros from prev Hp; cbn; [exact I|]. split; [assumption|apply IH; lia]. }
@@ -196,6 +215,24 @@ Section GroupFacts.
       + symmetry. destruct (mem_z id (mem_of gc c)) eqn:E2; [|reflexivity]. apply mem_z_in in E2. apply in_group_mem in E2; [congruence|lia].
   Qed.
 End GroupFacts.
+
+(* the membership of the imported child is the membership of the original *)
+Lemma igrp_membership : forall mx c w, gok mx c -> 1 <= s_gcount mx -> s_gcount mx <= 2 ^ w ->
+  match (if Z.of_nat (length (mem_of (s_gcount mx) c)) =? 2 ^ w then [] else mem_of (s_gcount mx) c) with
+  | [] => zrange 0 (Z.to_nat (2 ^ w))
+  | z :: l => z :: l
+  end = mem_of (s_gcount mx) c.
+Proof.
+  intros mx c w Hok Hg1 Hgw.
+  destruct (mem_of_ascending mx c Hok) as [Ma Mb]. pose proof (mem_of_nonempty mx c Hok) as Mn.
+  destruct (Z.of_nat (length (mem_of (s_gcount mx) c)) =? 2 ^ w) eqn:El.
+  - apply Z.eqb_eq in El.
+    assert (E : mem_of (s_gcount mx) c = zrange 0 (length (mem_of (s_gcount mx) c))).
+    { apply ascending_full; [exact Ma|]. intros g Hg. specialize (Mb g Hg). lia. }
+    rewrite E. f_equal. lia.
+  - destruct (mem_of (s_gcount mx) c); [contradiction|reflexivity].
+Qed.
+
 
 (* ---------------- what the exporter writes for a multiplexer ---------------- *)
 (* the accumulator with its SG_MUL_VAL_ list *)
@@ -1256,13 +1293,10 @@ Section MuxImport.
 
     Definition rim (p : Z * signal) : signal := rimg (fst p) (snd p) (EI (snd p)).
     Definition timg (p : Z * signal) : signal := place (rim p) (s_rel (snd p)) None [].
-    (* the groups the importer stores: a fixed child comes back fixed when the exported ranges cover the imported
-       group count 2^width, else as the list of all the exported groups *)
+    (* the groups the importer stores: the exported membership, or none (fixed) when it covers the imported group
+       count 2^width *)
     Definition igrp (c : signal) : list Z :=
-      match s_groups c with
-      | [] => if s_gcount mx =? 2 ^ selw then [] else zrange 0 (Z.to_nat (s_gcount mx))
-      | g => g
-      end.
+      if Z.of_nat (length (mem_of (s_gcount mx) c)) =? 2 ^ selw then [] else mem_of (s_gcount mx) c.
     Definition kimg (p : Z * signal) : signal := place (rim p) (s_rel (snd p)) (Some mid) (igrp (snd p)).
 
     Lemma ent_rim : forall p, ent EI p = ((rim p, []), img (snd p)).
@@ -1345,14 +1379,25 @@ Section MuxImport.
       destruct (other_sig c Hc Hne) as [_ [_ [[Ht _]|[_ Hok]]]]; [congruence|].
       destruct selw_facts as [_ [_ [Hg1 _]]].
       destruct (mem_of_ascending mx c (child_gok es mx c Hok)) as [Ma Mb]. pose proof (mem_of_nonempty mx c (child_gok es mx c Hok)) as Mn.
-      unfold igrp, mem_of in *. destruct (s_groups c) as [|g0 gr] eqn:Eg.
-      - split; [|split; [|reflexivity]].
-        + destruct (s_gcount mx =? 2 ^ selw); [left; reflexivity|right]. split; [exact Mn|]. split; assumption.
-        + intros g Hg. unfold in_group. cbn [s_groups place]. rewrite Eg.
-          destruct (s_gcount mx =? 2 ^ selw); [reflexivity|].
-          destruct (zrange 0 (Z.to_nat (s_gcount mx))) as [|z0 zr] eqn:Ez; [reflexivity|]. rewrite <- Ez. apply mem_z_in. apply in_zrange. lia.
-      - split; [right; split; [discriminate|split; assumption]|]. split; [|intros Hc0; discriminate Hc0].
-        intros g Hg. unfold in_group. cbn [s_groups place]. rewrite Eg. reflexivity.
+      assert (Hfull : Z.of_nat (length (mem_of (s_gcount mx) c)) = 2 ^ selw -> mem_of (s_gcount mx) c = zrange 0 (Z.to_nat (2 ^ selw)) /\ s_gcount mx = 2 ^ selw).
+      { intros Hl. destruct selw_facts as [_ [Hgc' _]].
+        assert (E : mem_of (s_gcount mx) c = zrange 0 (length (mem_of (s_gcount mx) c))).
+        { apply ascending_full; [exact Ma|]. intros g Hg. specialize (Mb g Hg). lia. }
+        split; [rewrite E at 1; f_equal; lia|].
+        destruct (ascending_count _ _ _ Ma Mb) as [En|Hcnt]; [contradiction|]. lia. }
+      unfold igrp. destruct (Z.of_nat (length (mem_of (s_gcount mx) c)) =? 2 ^ selw) eqn:El.
+      - apply Z.eqb_eq in El. destruct (Hfull El) as [Hz Hgc2]. split; [left; reflexivity|]. split.
+        + intros g Hg. unfold in_group at 1. cbn [s_groups place]. symmetry.
+          apply (in_group_mem mx c Hg1 g Hg). rewrite Hz. apply in_zrange. lia.
+        + intros Eg. unfold mem_of. rewrite Eg. reflexivity.
+      - split; [right; split; [exact Mn|split; assumption]|]. split.
+        + intros g Hg. unfold in_group at 1. cbn [s_groups place].
+          destruct (mem_of (s_gcount mx) c) as [|z0 zr] eqn:Ez; [contradiction|]. rewrite <- Ez.
+          destruct (in_group c g) eqn:Eig.
+          * apply mem_z_in. apply (in_group_mem mx c Hg1 g Hg). exact Eig.
+          * destruct (mem_z g (mem_of (s_gcount mx) c)) eqn:Em; [|reflexivity]. apply mem_z_in in Em.
+            apply (in_group_mem mx c Hg1 g Hg) in Em. congruence.
+        + intros Eg. unfold mem_of. rewrite Eg. reflexivity.
     Qed.
 
     Lemma child_groups_igrp : forall p, In (snd p) sigs -> is_topb (snd p) = false ->
@@ -1370,19 +1415,13 @@ Section MuxImport.
         rewrite F3, Ht. cbn [negb]. apply andb_true_iff in El. destruct El as [_ El]. apply Nat.eqb_eq in El. rewrite Hmr in El. destruct mr; [|discriminate El].
         assert (Hsw' : ds_switch (img (snd p)) = grp (snd p)).
         { unfold img. rewrite Hnm, Ht. unfold child_dsig. destruct (s_kind (snd p)); cbn [ds_switch]; apply u32_id; lia. }
-        rewrite Hsw'. f_equal. unfold igrp. unfold mem_of in Hmr. destruct (s_groups (snd p)) as [|g0 gr] eqn:Eg; [|congruence].
-        exfalso. destruct Hok as [_ [_ [[[_ H2]|[Hx _]] _]]]; [|rewrite Eg in Hx; contradiction].
-        assert (Hl : length (zrange 0 (Z.to_nat (s_gcount mx))) = 1%nat) by (rewrite Hmr; reflexivity).
-        assert (Hzl : forall n f, length (zrange f n) = n) by (induction n; intros f; cbn; [reflexivity|rewrite IHn; reflexivity]).
-        rewrite Hzl in Hl. lia.
+        rewrite Hsw'. f_equal. unfold igrp. rewrite Hmr. cbn [length].
+        assert (H2w : 2 <= 2 ^ selw) by (change 2 with (2 ^ 1) at 1; apply Z.pow_le_mono_r; lia).
+        replace (Z.of_nat 1 =? 2 ^ selw) with false by lia. reflexivity.
       - cbn [em_ranges]. rewrite mux_ranges_roundtrip; [|assumption|intros x Hx; specialize (Mb x Hx); lia|].
         2:{ apply Z.pow_le_mono_r; lia. }
         cbn [bind]. rewrite dedup_z_id by (try (eapply ascending_nodup; exact Ma); intros x _ []).
-        unfold igrp, mem_of in *. destruct (s_groups (snd p)) as [|g0 gr] eqn:Eg.
-        + assert (Hzl : forall n f, length (zrange f n) = n) by (induction n; intros f; cbn; [reflexivity|rewrite IHn; reflexivity]).
-          rewrite Hzl. rewrite Z2Nat.id by lia. reflexivity.
-        + destruct Hok as [_ [_ [[[Hx _]|[_ [_ [_ Hlen]]]] _]]]; [rewrite Eg in Hx; discriminate|]. rewrite Eg in Hlen.
-          replace (Z.of_nat (length (g0 :: gr)) =? 2 ^ selw) with false by lia. reflexivity.
+        unfold igrp. reflexivity.
     Qed.
 
     Lemma mux_kid_step : forall mx0 done p,
@@ -2090,11 +2129,9 @@ Section MuxProj.
         destruct Hok as [_ [Hpar [Hgok [Hv0 [Ht0 [Ha0 _]]]]]].
         assert (Hmem : membership R (kimg mx mid EI p) = membership sigs (snd p)).
         { unfold membership, kimg. cbn [s_parent s_groups place]. rewrite Hpar, find_mx, (ProofsIds.find_sig_unique sigs mx Hids Hmx).
-          unfold igrp. destruct (s_groups (snd p)) as [|g0 gr] eqn:Eg; [|reflexivity].
-          destruct (s_gcount mx =? 2 ^ sel_width mx) eqn:E2.
-          - cbn [s_gcount mx_img]. apply Z.eqb_eq in E2. rewrite E2. reflexivity.
-          - destruct Hgok as [[_ H2]|[Hx _]]; [|exfalso; apply Hx; reflexivity].
-            destruct (Z.to_nat (s_gcount mx)) eqn:En; [lia|]. cbn [zrange]. reflexivity. }
+          cbn [s_gcount mx_img]. unfold igrp.
+          destruct (selw_facts es m mx names Hmm Hmx Hmxm) as [_ [Hgw [Hg1 _]]].
+          exact (igrp_membership mx (snd p) (sel_width mx) (conj Hk Hgok) Hg1 Hgw). }
         destruct R_len as [k HRl]. destruct sigs_len as [k2 HSl].
         unfold proj_signal. rewrite Hmem, HRl, HSl. cbn [abs_start].
         unfold kimg. rewrite ProofsLayout.sig_size_place.
@@ -3135,11 +3172,9 @@ Section MultiProj.
         rewrite Hmid.
         assert (Hmem : membership R (kimg t i EI p) = membership sigs (snd p)).
         { unfold membership, kimg. cbn [s_parent s_groups place]. rewrite Hpar, Hfind, (ProofsIds.find_sig_unique sigs t Hids P1).
-          unfold igrp. destruct (s_groups (snd p)) as [|g0 gr] eqn:Eg; [|reflexivity].
-          destruct (s_gcount t =? 2 ^ sel_width t) eqn:E2.
-          - cbn [s_gcount mx_img]. apply Z.eqb_eq in E2. rewrite E2. reflexivity.
-          - destruct Hgok as [[_ H2]|[Hx _]]; [|exfalso; apply Hx; reflexivity].
-            destruct (Z.to_nat (s_gcount t)) eqn:En; [lia|]. cbn [zrange]. reflexivity. }
+          cbn [s_gcount mx_img]. unfold igrp.
+          destruct (selw_facts es m t names Hmm P1 P2) as [_ [Hgw [Hg1 _]]].
+          exact (igrp_membership t (snd p) (sel_width t) (conj Hk Hgok) Hg1 Hgw). }
         assert (HSl : exists k2, Datatypes.length sigs = S k2) by (destruct sigs as [|x r]; [destruct Hs|exists (Datatypes.length r); reflexivity]).
         destruct HSl as [k2 HSl].
         unfold proj_signal. rewrite Hmem, RM_len, HSl. cbn [abs_start].
@@ -3836,7 +3871,7 @@ Proof.
              refine (conj _ (conj eq_refl (conj _ (conj eq_refl (conj eq_refl (conj eq_refl (conj _ (conj _ _))))))));
              [discriminate
              |unfold groups_ok; first [left; split; [reflexivity|lia]
-                                      |right; split; [discriminate|]; split; [cbn; lia|]; split; [intros g Hg; cbn in Hg; lia|cbn; lia]]
+                                      |right; split; [discriminate|]; split; [cbn; lia|intros g Hg; cbn in Hg; lia]]
              |intros Hc; first [lia|discriminate Hc]|lia|vm_compute; intros Hc; discriminate Hc]). }
         { intros c c' Hc Hc' Ht Ht' Hne _ [g [Hg0 [Hg1 Hg2]]]. in_cases Hc; in_cases Hc'; try (cbn in Ht; discriminate Ht); try (cbn in Ht'; discriminate Ht');
             try contradiction;
@@ -3877,7 +3912,7 @@ Proof.
                     refine (conj _ (conj eq_refl (conj _ (conj eq_refl (conj eq_refl (conj eq_refl (conj _ (conj _ _))))))))];
              [discriminate
              |unfold groups_ok; first [left; split; [reflexivity|lia]
-                                      |right; split; [discriminate|]; split; [cbn; lia|]; split; [intros g Hg; cbn in Hg; lia|cbn; lia]]
+                                      |right; split; [discriminate|]; split; [cbn; lia|intros g Hg; cbn in Hg; lia]]
              |intros Hc; first [lia|discriminate Hc]|lia|vm_compute; intros Hc; discriminate Hc]). }
         { intros c c' Hc Hc' Ht Ht' Hne Hpar [g [Hg0 [Hg1 Hg2]]]. in_cases Hc; in_cases Hc'; try (cbn in Ht; discriminate Ht); try (cbn in Ht'; discriminate Ht');
             try contradiction; try (cbn in Hpar; discriminate Hpar);
@@ -3902,4 +3937,91 @@ Example example_mux_bus_roundtrip :
              = [[("a", 0, None, []); ("z", 26, None, []); ("mode_sel", 8, None, []);
                  ("c0", 0, Some 1, [0; 2]); ("c1", 0, Some 1, [1]); ("c_2", 4, Some 1, [1]); ("fx", 8, Some 1, [])]; [("n", 0, None, [])];
                 [("p", 40, None, []); ("m_b", 16, None, []); ("kb", 0, Some 2, [1]); ("kf", 4, Some 2, []); ("m_a", 0, None, []); ("ka", 0, Some 0, [0])]].
+Proof. eexists. split; [vm_compute; reflexivity|]. split; vm_compute; reflexivity. Qed.
+
+(* ------------------------------------------------------------------------------------------
+   edge cases of the group lists inside the fragment: a multiplexer with ONE group holding a child that lists it and
+   a fixed child (the fixed child comes back listing group 0: same membership), and a child that lists EVERY group
+   of a 2-group multiplexer (it comes back fixed: same membership)
+   ------------------------------------------------------------------------------------------ *)
+Definition example_edge_bus : bus :=
+  mkbus "bus" "" [] [mknode "E" 0 "" []] []
+    [ mkmessage 200 "one" 8 LittleEndian 0 0 0 0 "E" [] "" []
+        [ mksignal 0 "s" KMux 0 None [] 0 false fl_one fl_zero fl_zero fl_zero "" 0 1 8 "" fl_zero 0 [];
+          std_sig 1 "x" 0 4 (Some 0) [0] "";
+          std_sig 2 "y" 4 4 (Some 0) [] "" ];
+      mkmessage 201 "all" 8 LittleEndian 0 0 0 0 "E" [] "" []
+        [ mksignal 0 "t" KMux 0 None [] 0 false fl_one fl_zero fl_zero fl_zero "" 0 2 8 "" fl_zero 0 [];
+          std_sig 1 "u" 0 4 (Some 0) [0; 1] "" ] ].
+
+Example example_edge_bus_ok : mbus example_edge_bus.
+Proof.
+  unfold mbus, example_edge_bus. cbn [b_desc b_attrs b_nodes b_messages b_enums map n_name n_desc n_attrs length].
+  split; [reflexivity|]. split; [repeat constructor|]. split; [e_nodup|]. split; [vm_compute; intuition discriminate|].
+  split; [cbn; lia|]. split.
+  { constructor; [|constructor; [|constructor]]; unfold mmessage;
+      cbn [m_desc m_attrs m_cycle m_delay m_startdelay m_sendtype m_canid m_size m_signals m_sender m_receivers].
+    - refine (conj eq_refl (conj eq_refl (conj eq_refl (conj eq_refl (conj eq_refl (conj _ (conj _ (conj _ (conj _ (conj _ (conj _ (conj _ _)))))))))))).
+      + cbn; lia.
+      + lia.
+      + unfold msigs_ok. split; [e_nodup|]. split; [e_nodup|]. split.
+        { cbn [filter is_topb std_sig s_parent]. repeat (apply Forall_cons; [unfold top_ok, std_sig; cbn; repeat split; try reflexivity; try lia|]). apply Forall_nil. }
+        split.
+        { intros a Ha Hma. in_cases Ha; first [reflexivity|cbn in Hma; discriminate Hma]. }
+        split.
+        { intros c Hc Ht. in_cases Hc; try (cbn in Ht; discriminate Ht);
+            (first [eexists; split; [left; reflexivity|]; split; [reflexivity|]; split; [reflexivity|];
+                    unfold child_ok, std_sig; cbn [s_kind s_parent s_groups s_startval s_sendtype s_attrs s_size s_rel s_id s_gcount s_gsize];
+                    refine (conj _ (conj eq_refl (conj _ (conj eq_refl (conj eq_refl (conj eq_refl (conj _ (conj _ _))))))))
+                   |eexists; split; [right; right; left; reflexivity|]; split; [reflexivity|]; split; [reflexivity|];
+                    unfold child_ok, std_sig; cbn [s_kind s_parent s_groups s_startval s_sendtype s_attrs s_size s_rel s_id s_gcount s_gsize];
+                    refine (conj _ (conj eq_refl (conj _ (conj eq_refl (conj eq_refl (conj eq_refl (conj _ (conj _ _))))))))];
+             [discriminate
+             |unfold groups_ok; first [left; split; [reflexivity|lia]
+                                      |right; split; [discriminate|]; split; [cbn; lia|intros g Hg; cbn in Hg; lia]]
+             |intros Hc; first [lia|discriminate Hc]|lia|vm_compute; intros Hc; discriminate Hc]). }
+        { intros c c' Hc Hc' Ht Ht' Hne Hpar [g [Hg0 [Hg1 Hg2]]]. in_cases Hc; in_cases Hc'; try (cbn in Ht; discriminate Ht); try (cbn in Ht'; discriminate Ht');
+            try contradiction; try (cbn in Hpar; discriminate Hpar);
+            try (vm_compute; first [left; intros Hc; discriminate Hc|right; intros Hc; discriminate Hc]);
+            exfalso; unfold in_group, std_sig in Hg1, Hg2; cbn [s_groups mem_z existsb] in Hg1, Hg2; lia. }
+      + cbn [filter is_topb std_sig s_parent]. cbn. repeat split; lia.
+      + cbn; auto.
+      + intros x Hx; cbn in Hx; cbn; intuition.
+      + e_nodup.
+      + intros Hx; discriminate Hx.
+    - refine (conj eq_refl (conj eq_refl (conj eq_refl (conj eq_refl (conj eq_refl (conj _ (conj _ (conj _ (conj _ (conj _ (conj _ (conj _ _)))))))))))).
+      + cbn; lia.
+      + lia.
+      + unfold msigs_ok. split; [e_nodup|]. split; [e_nodup|]. split.
+        { cbn [filter is_topb std_sig s_parent]. repeat (apply Forall_cons; [unfold top_ok, std_sig; cbn; repeat split; try reflexivity; try lia|]). apply Forall_nil. }
+        split.
+        { intros a Ha Hma. in_cases Ha; first [reflexivity|cbn in Hma; discriminate Hma]. }
+        split.
+        { intros c Hc Ht. in_cases Hc; try (cbn in Ht; discriminate Ht);
+            (first [eexists; split; [left; reflexivity|]; split; [reflexivity|]; split; [reflexivity|];
+                    unfold child_ok, std_sig; cbn [s_kind s_parent s_groups s_startval s_sendtype s_attrs s_size s_rel s_id s_gcount s_gsize];
+                    refine (conj _ (conj eq_refl (conj _ (conj eq_refl (conj eq_refl (conj eq_refl (conj _ (conj _ _))))))))
+                   |eexists; split; [right; right; left; reflexivity|]; split; [reflexivity|]; split; [reflexivity|];
+                    unfold child_ok, std_sig; cbn [s_kind s_parent s_groups s_startval s_sendtype s_attrs s_size s_rel s_id s_gcount s_gsize];
+                    refine (conj _ (conj eq_refl (conj _ (conj eq_refl (conj eq_refl (conj eq_refl (conj _ (conj _ _))))))))];
+             [discriminate
+             |unfold groups_ok; first [left; split; [reflexivity|lia]
+                                      |right; split; [discriminate|]; split; [cbn; lia|intros g Hg; cbn in Hg; lia]]
+             |intros Hc; first [lia|discriminate Hc]|lia|vm_compute; intros Hc; discriminate Hc]). }
+        { intros c c' Hc Hc' Ht Ht' Hne Hpar [g [Hg0 [Hg1 Hg2]]]. in_cases Hc; in_cases Hc'; try (cbn in Ht; discriminate Ht); try (cbn in Ht'; discriminate Ht');
+            try contradiction; try (cbn in Hpar; discriminate Hpar);
+            try (vm_compute; first [left; intros Hc; discriminate Hc|right; intros Hc; discriminate Hc]);
+            exfalso; unfold in_group, std_sig in Hg1, Hg2; cbn [s_groups mem_z existsb] in Hg1, Hg2; lia. }
+      + cbn [filter is_topb std_sig s_parent]. cbn. repeat split; lia.
+      + cbn; auto.
+      + intros x Hx; cbn in Hx; cbn; intuition.
+      + e_nodup.
+      + intros Hx; discriminate Hx. }
+  split; [e_nodup|]. split; [e_nodup|]. split; [reflexivity|]. constructor.
+Qed.
+
+Example example_edge_bus_roundtrip :
+  exists b', export_import example_edge_bus = Ok b' /\ proj_bus b' = proj_bus example_edge_bus /\
+             map (fun m => map (fun s => (s_name s, s_parent s, s_groups s)) (m_signals m)) (b_messages b')
+             = [[("s", None, []); ("x", Some 0, [0]); ("y", Some 0, [0])]; [("t", None, []); ("u", Some 0, [])]].
 Proof. eexists. split; [vm_compute; reflexivity|]. split; vm_compute; reflexivity. Qed.
